@@ -63,11 +63,21 @@ def main() -> int:
         return rc
     except core.MachineryError as exc:
         print(f"MACHINERY-ERROR property={prop}: {exc}", file=sys.stderr)
-        return 2
+        return _violations_before_failure(check, prop, args)
     except Exception:
         traceback.print_exc()
         print(f"MACHINERY-ERROR property={prop}: unexpected exception in the harness", file=sys.stderr)
-        return 2
+        return _violations_before_failure(check, prop, args)
+
+
+def _violations_before_failure(check, prop, args) -> int:
+    """A machinery failure after TLC has already judged some real observation to violate the property (a changed tree can
+    break a later self-test or realisation step) must not hide those verdicts: they are reported, exit 1.  With no
+    verdict yet the run is a machinery failure, exit 2."""
+    if check.violations and not args.replay and not args.selftest_binding:
+        check.assumptions.append("the run ended with a machinery error after these violations had been adjudicated")
+        return check.finish()
+    return 2
 
 
 if __name__ == "__main__":
